@@ -10,6 +10,7 @@ SCC(i) = {j : i reaches j and j reaches i}; weight of an SCC = sum of the ORIGIN
 import logging
 import numbers
 
+import warnings
 import numpy as np
 import scipy.sparse
 from hypothesis import strategies as st
@@ -169,6 +170,11 @@ def build(case, container=None, variant=None):
             x = arr.copy()
             x.setflags(write=False)
             return x
+        if v == "npmatrix":
+            # what `sparse.todense()` hands back: an ndarray sub-class whose `*` is the matrix product
+            with warnings.catch_warnings():
+                warnings.simplefilter("ignore")
+                return np.matrix(arr)
         return arr
     cls = getattr(scipy.sparse, c)
     fmt, kind = c.split("_")
@@ -375,7 +381,7 @@ def count_matrix(draw, max_n=8):
 
 def _variant_for(draw, container):
     if container == "ndarray":
-        return draw(st.sampled_from(["plain", "plain", "F", "strided", "readonly"]))
+        return draw(st.sampled_from(["plain", "plain", "F", "strided", "readonly", "npmatrix"]))
     if container.split("_")[0] in ("coo", "csr", "csc"):
         return draw(st.sampled_from(["plain", "plain", "dup", "explicit_zero"]))
     return "plain"
@@ -728,6 +734,72 @@ def exhaustive_small(tier, shard, nshards):
     return _enum(specs, shard, nshards)
 
 
+# ---------------------------------------------------------------------------------------------------------
+# more than a thousand states (seeded, planted components: the answer is known by construction)
+
+@st.composite
+def planted_case(draw):
+    return {"n": draw(st.sampled_from([1023, 1024, 1025, 1030, 1500, 2047, 2049, 2100])), "seed": draw(st.integers(0, 2 ** 31 - 1)),
+            "threshold": draw(st.sampled_from([1, 2, 2, 3, 5])), "nblocks": draw(st.integers(2, 6)),
+            "container": draw(st.sampled_from(["ndarray", "csr_matrix", "coo_matrix", "lil_matrix"])),
+            "renumber": draw(st.booleans()), "heavy": draw(st.sampled_from(["last", "last", "first", "any"]))}
+
+
+def run_planted(case):
+    rng = np.random.RandomState(case["seed"])            # seed drawn by Hypothesis
+    n, thr, nb = case["n"], case["threshold"], case["nblocks"]
+    cuts = np.sort(rng.choice(np.arange(1, n), size=nb - 1, replace=False))
+    if case["heavy"] in ("last", "any"):
+        # a short last block sitting entirely in the rows beyond the last multiple of 1024
+        cuts[-1] = max(cuts[-2] + 1 if nb > 2 else 1, n - 1 - rng.randint(2, 5))
+    edges = np.concatenate([[0], cuts, [n]]).astype(int)
+    blocks = [np.arange(edges[b], edges[b + 1]) for b in range(nb)]
+    rows, cols, vals = [], [], []
+    for b, mem in enumerate(blocks):
+        k = len(mem)
+        if k == 1:
+            rows.append(mem); cols.append(mem); vals.append(np.array([thr + 1]))
+        else:
+            rows.append(mem); cols.append(np.roll(mem, -1)); vals.append(rng.randint(thr, thr + 4, size=k))
+    heavy = {"last": nb - 1, "first": 0, "any": int(rng.randint(nb))}[case["heavy"]]
+    r = np.concatenate(rows); c = np.concatenate(cols); v = np.concatenate(vals).astype(np.int64)
+    C = scipy.sparse.coo_matrix((v, (r, c)), shape=(n, n)).tolil()
+    # the heavy block gets one big count on an edge it already has
+    hb = blocks[heavy]
+    C[hb[0], hb[1 % len(hb)] if len(hb) > 1 else hb[0]] += 10 * n * (thr + 4)
+    # bridges between consecutive blocks in both directions: below the threshold (carry weight, never connectivity) when
+    # thr >= 2, one-way only when thr == 1
+    for b in range(nb - 1):
+        i, j = int(blocks[b][-1]), int(blocks[b + 1][0])
+        if thr >= 2:
+            C[i, j] = thr - 1
+            C[j, i] = thr - 1
+        else:
+            C[i, j] = 1
+    dense_C = np.asarray(C.toarray())
+    x = dense_C.copy() if case["container"] == "ndarray" else getattr(scipy.sparse, case["container"])(C)
+    mapping, T = trim_disconnected(x, threshold=thr, renumber_states=case["renumber"])
+    to_orig = norm_mapping(mapping)
+    kept = sorted(to_orig.values())
+    want = [int(s_) for s_ in hb]
+    require(kept == want, "trimming a planted %d-state matrix did not keep exactly the heaviest component" % n,
+            n_kept=len(kept), n_want=len(want), first_kept=kept[:5], first_want=want[:5], last_kept=kept[-5:], last_want=want[-5:],
+            threshold=thr, blocks=[int(e) for e in edges])
+    D = dense(T)
+    if case["renumber"]:
+        require(D.shape == (len(want), len(want)) and np.array_equal(D, dense_C[np.ix_(want, want)]),
+                "renumbered matrix != counts[kept][:, kept] (planted)")
+    else:
+        emb = np.zeros_like(dense_C)
+        emb[np.ix_(want, want)] = dense_C[np.ix_(want, want)]
+        require(D.shape == dense_C.shape and np.array_equal(D, emb), "in-place variant: counts outside the kept block survive")
+    require(np.array_equal(np.asarray(x.toarray() if scipy.sparse.issparse(x) else x), dense_C), "the caller's matrix was changed")
+    tail = n % 1024 != 0 and n > 1024 and edges[heavy] >= (n // 1024) * 1024
+    return Info(n > 1024 and thr >= 2, ["planted_n=%d" % n, "planted_thr=%d" % thr, "planted_container=" + case["container"],
+                                         "heavy_in_last_partial_1024_block=%s" % tail],
+                key=[n, case["seed"], thr, nb, case["container"], case["renumber"], case["heavy"]])
+
+
 CLAUSES = [
     Clause("heaviest_scc", trim_case(), run_heaviest, quick=1600, thorough=30000, exhaustive=exhaustive_small),
     Clause("strongly_connected", trim_case(), run_connected, quick=800, thorough=16000, exhaustive=exhaustive_small),
@@ -741,6 +813,8 @@ CLAUSES = [
            quick=250, thorough=4000),
     Clause("input_unchanged", trim_case(), run_unchanged, quick=1000, thorough=16000),
     Clause("msm_mapping", assigns_case(), run_msm, quick=500, thorough=10000),
+    Clause("planted_thousands", planted_case(), run_planted, quick=24, thorough=300,
+           doc="1023..2100 states with planted components (answer known by construction), thresholds 1..5"),
     Clause("mapping_big", trim_case(max_n=40), run_mapping, quick=60, thorough=1500),
     Clause("submatrix_big", trim_case(max_n=40), run_submatrix, quick=60, thorough=1500),
     Clause("heaviest_scc_big", trim_case(max_n=40), run_heaviest, quick=60, thorough=1500),
